@@ -4,27 +4,27 @@ NOT_CLAIMED = {}
 CLAIMED = {
  "C19": {
   "technique": "model-based testing: exhaustive + random operation histories executed for real on fresh threads in child processes against an abstract model; lock-step two-thread interleavings",
-  "text": "Exploration: every well-bracketed history up to length 5 (quick) / 7 (thorough) over {enable, disable, enter catch_panic, return, panic(unique message), set hook again, set fallback Continue, get backtrace} plus random histories up to length 30, each run on a fresh thread in a child process whose sentinel hook was installed before the catcher's; after every step the nesting level (verif hook), every catch_panic result (Ok(v) / Err(text containing the message)), what the previously installed hook received, and the recorded backtrace equal the model's; a final probe panic outside any frame must reach the previous hook; two histories interleaved step by step (scheduler thread) must each observe exactly what they observe alone; dedicated children check fallback mode Abort (SIGABRT).",
+  "text": "Exploration: every well-bracketed history up to length 5 (quick) / 7 (thorough) over {enable, disable, enter catch_panic, return, panic(unique message), set hook again, set fallback Continue, get backtrace} plus random histories up to length 30, each run on a fresh thread in a child process whose sentinel hook was installed before the catcher's; after every step the nesting level (verif hook), every catch_panic result (Ok(v) / Err(text containing the message)), what the previously installed hook received, and the recorded backtrace equal the model's; a final probe panic outside any frame must reach the previous hook; two histories interleaved step by step (scheduler thread) must each observe exactly what they observe alone; dedicated children check fallback mode Abort (SIGABRT); fresh children race the first installation of the hook at generated offsets (interleaving chosen through the verif-hooks pauses) while other threads catch panics.",
   "note": "Only string payloads, no resume_unwind; interleavings are at step granularity (finer races such as the non-atomic check-then-set in panic_catcher_set_hook are not reached).",
   "ref": "DESIGN.md section 3, C19",
  },
 
  "C18": {
   "technique": "stress exploration: generated filter sets executed concurrently (barrier-released threads, shared and per-thread filters/contexts) against a sequential baseline and the reference evaluator; fresh child processes racing first use of lazily initialised global state",
-  "text": "Exploration: per case one generated scheme with 19 template filters (regex, SIMD contains, in-sets, lists, wildcard, map-each, plain and mapped calls, xor chains) plus generated filters and 10-16 contexts; after a sequential gate (engine = reference evaluator, repeat and recompile agree) T = 2, 4, 16, 64 barrier-released threads execute every (filter, context) pair repeatedly on shared Arc<Filter> / shared contexts as well as per-thread recompilations and cloned contexts, in walk and same-filter burst patterns; every result must equal the baseline; in-flight counters measure real overlap; fresh child processes (AVX2 on and off) race the first contains compile and first regex execution on 16 threads and must reproduce the sequential digest.",
+  "text": "Exploration: per case one generated scheme with 19 template filters (regex, SIMD contains, in-sets, lists, wildcard, map-each, plain and mapped calls, xor chains) plus generated filters and 10-16 contexts; after a sequential gate (engine = reference evaluator, repeat and recompile agree) T = 2, 4, 16, 64 barrier-released threads execute every (filter, context) pair repeatedly on shared Arc<Filter> / shared contexts as well as per-thread recompilations and cloned contexts, in walk and same-filter burst patterns; every result must equal the baseline; in-flight counters measure real overlap; fresh child processes (AVX2 on and off) race the first contains compile and first regex execution on 16 threads and must reproduce the sequential digest; filters over equal-length patterns under every byte-string operator are compiled, executed and dropped in rotation on 1..8 threads and every result equals the reference.",
   "note": "Generated search cannot choose thread schedules: this is stress exploration of the schedules that occur; no ThreadSanitizer build; races that change no result, crash nothing and hang nothing are invisible.",
   "ref": "DESIGN.md section 3, C18",
  },
 
  "C11": {
   "technique": "property-based testing of generated regexes against a position-set reference matcher + exhaustive wildcard patterns against a DP reference + metamorphic size-limit checks",
-  "text": "Exploration: regexes from a subset grammar (literals incl. escapes and \\xHH, ., classes with ranges/negation/quotes, ?*+, alternation, groups, ^ $) written quoted and raw: the AST carries exactly the pattern and the match result equals an independent position-set matcher on ~13 values each (non-UTF-8, newlines, case flips, empty); every wildcard pattern over {a,B,*,\\,?} up to length 6 (quick) / 8 (thorough) in quoted/escaped/raw forms, both operators, star limits 0..4: rejected exactly for invalid escapes, trailing backslash, ** and too many stars, accepted ones agree with a DP matcher (ASCII case folding iff not strict); regex size limits behave monotonically.",
+  "text": "Exploration: regexes from a subset grammar (literals incl. escapes and \\xHH, ., classes with ranges/negation/quotes, ?*+, alternation, groups, ^ $ \\A \\z, word assertions \\b \\B \\< \\>, \\d \\w \\s and negations, counted and lazy repetition, (?ism:) groups) written quoted and raw, at top level and nested in parentheses / double negation / an or-operand: the AST carries exactly the pattern and the match result equals an independent position-set matcher on ~13 values each (non-UTF-8, newlines, case flips, empty); every wildcard pattern over {a,B,*,\\,?} up to length 6 (quick) / 8 (thorough) in quoted/escaped/raw forms, both operators, star limits 0..4: rejected exactly for invalid escapes, trailing backslash, ** and too many stars, accepted ones agree with a DP matcher (ASCII case folding iff not strict); regex size limits behave monotonically.",
   "note": "Nested character classes and a leading ] in a class are not generated (the quoted scanner's treatment is unspecified); size thresholds are only checked for monotonicity, default-accepts and one impossibility bound.",
   "ref": "DESIGN.md section 3, C11",
  },
  "C13": {
   "technique": "exhaustive enumeration of nesting shapes x limits + random deep shapes + child-process stack-budget runs",
-  "text": "Exploration: every sequence over {parenthesis, not, any/all, call} up to length 6 (quick) / 9 (thorough), typed through four adapter functions, in 4 spellings, and shapes with the deep path in each call-argument / quantifier / chain-operand position, against limits 0..8: accepted exactly when the nesting is within the limit (otherwise rejected, with the nesting error unless a hex-like function name routes the argument through the parser's fallback); random shapes at depth d-1, d, d+1 for d in {16, 64, 128 default, 129, 200}, also through parse_value; accepted filters at the limit are parsed, serialised, hashed, cloned, compiled, executed and dropped on a thread with 64 KiB of stack per level in a child process.",
+  "text": "Exploration: every sequence over {parenthesis, not, any/all, call} up to length 6 (quick) / 9 (thorough), typed through four adapter functions, in 4 spellings, and shapes with the deep path in each call-argument / quantifier / chain-operand position, against limits 0..8: accepted exactly when the nesting is within the limit (otherwise rejected, with the nesting error unless a hex-like function name routes the argument through the parser's fallback); random shapes at depth d-1, d, d+1 for d in {16, 64, 128 default, 129, 200}, also through parse_value; calls with an empty argument list as innermost construct; one parser object fed many inputs in a row (malformed and over-limit ones in between must not change later verdicts); accepted filters at the limit are parsed, serialised, hashed, cloned, compiled, executed and dropped on a thread with 64 KiB of stack per level in a child process.",
   "note": "Stack budget 64 KiB x (d+8) has > 20x headroom over the measured need in the harness profile; an abnormal child exit is a violation.",
   "ref": "DESIGN.md section 3, C13",
  },
@@ -37,39 +37,39 @@ CLAIMED = {
  },
  "C20": {
   "technique": "differential property testing (C API called from the rlib vs Rust API on the same scheme) + failure-sequence histories + interleaved threads + child process for panics",
-  "text": "Exploration: schemes are built through the C constructors; generated filters (well-typed, mutated, NUL-containing, invalid UTF-8) give the same parse outcome with last-error = ParseError text (NUL -> 0x1A), the same AST JSON, equal hashes for equal JSON, the same uses/uses_list, the same context serialisation (typed setters and JSON setter) and the same match results (also vs the reference evaluator); histories of failing/succeeding/clear calls over 12 kinds of failures check that every failure sets a well-formed, NUL-terminated last error with no interior NUL; two threads interleaved step by step see exactly the errors they see alone; a child process checks Status::Panic for a user function panicking at parse, compile and match time and that the next call works.",
+  "text": "Exploration: schemes are built through the C constructors (the same registrations, incl. names with NUL / blanks / non-ASCII / invalid UTF-8, give the same answers, errors and scheme as the Rust builder); generated filters (well-typed, mutated, NUL-containing, invalid UTF-8) give the same parse outcome with last-error = ParseError text (NUL -> 0x1A), the same AST JSON, equal hashes for equal JSON, the same uses/uses_list, the same context serialisation (typed setters and JSON setter) and the same match results (also vs the reference evaluator); histories of failing/succeeding/clear calls over 12 kinds of failures check that every failure sets a well-formed, NUL-terminated last error with no interior NUL; two threads interleaved step by step see exactly the errors they see alone; a child process checks Status::Panic for a user function panicking at parse, compile and match time and that the next call works.",
   "note": "The extern C functions are called as Rust functions from the rlib; an abnormal child exit counts as a panic crossing the C boundary.",
   "ref": "DESIGN.md section 3, C20",
  },
 
  "C15": {
   "technique": "exhaustive enumeration of all types up to 12 layers + sampled deep types and generated scheme documents through four serde entry points; round-trip and differential (Rust vs C API) oracles",
-  "text": "Exploration: all 32,764 types with <= 12 layers and shaped/sampled types up to 32 layers round-trip through the recursive, bit-packed (CompoundType, CType built through the C constructors) and JSON forms (5 writers incl. the C API, 5 readers); descriptors with 33..130 layers must be rejected or reproduce the same JSON, never panic; scheme documents with 0..40 fields (dotted, long, non-ASCII, escape-requiring names, re-spelled with \\u escapes) round-trip names, order, types and optionality through from_str/from_slice/from_reader/from_value, duplicates (also equal only after escape normalisation) are rejected.",
+  "text": "Exploration: all 32,764 types with <= 12 layers and shaped/sampled types up to 32 layers round-trip through the recursive, bit-packed (CompoundType, CType built through the C constructors) and JSON forms (5 writers incl. the C API, 5 readers); descriptors with 33..130 layers must be rejected or reproduce the same JSON, never panic; scheme documents with 0..40 fields (dotted, long, non-ASCII, escape-requiring names, re-spelled with \\u escapes) round-trip names, order, types and optionality through from_str/from_slice/from_reader/from_value, duplicates (also equal only after escape normalisation) are rejected; a deep representable type is read correctly after failed reads on the same thread; the builder is offered names twice without it showing in the JSON form.",
   "note": "For from_value the expected field order is the value tree's own (sorted) member order.",
   "ref": "DESIGN.md section 3, C15",
  },
  "C16": {
   "technique": "exhaustive + random operation sequences against an abstract registry model (model-based testing), resolution confirmed by execution",
-  "text": "Exploration: all add_field/add_optional_field/add_function/add_list sequences up to length 4 (quick) / 6 (thorough) over colliding names, plus random histories up to length 12 over the full pool; after every step outcomes, holder kinds, counts, order, indexes, types, optionality and lookups equal the model; 30 probe names (prefixes, extensions, case variants) resolve exactly as the model says through the API and through parsing and executing `name`, `name == lit`, `name()`; clones are interchangeable, identical re-builds are not.",
+  "text": "Exploration: all add_field/add_optional_field/add_function/add_list sequences up to length 4 (quick) / 6 (thorough) over colliding names, plus random histories up to length 12 over the full pool; after every step outcomes, holder kinds, counts, order, indexes, types, optionality and lookups equal the model; 30 probe names (prefixes, extensions, case variants) resolve exactly as the model says through the API and through parsing and executing `name`, `name == lit`, `name()`; clones are interchangeable, identical re-builds are not; generated names of 1..300 bytes (one-byte neighbours, NUL-suffixed, through the Rust and the C builder) resolve exactly.",
   "note": "Names beginning with an operator keyword (not/any/all) are outside the property's pool and not generated.",
   "ref": "DESIGN.md section 3, C16",
  },
 
  "C09": {
   "technique": "exhaustive small-domain enumeration + property-based testing against a linear-scan reference",
-  "text": "Exploration: every list of <=3 (quick) / <=4 (thorough) inclusive ranges over a 7-point domain embedded order-preservingly into i64 / IPv4 (and an IPv6 analogue), written as values, a..b ranges and CIDRs, probed at every point, between points, with other-family addresses and the unset field; plus random lists of <=40 items (extremes, neighbours of earlier endpoints, /0, duplicates, mixed families, byte-string sets with shared prefixes) probed at every boundary +-1, also under any(arr[*] in {...}); oracle = linear scan of the written items with own mask arithmetic.",
+  "text": "Exploration: every list of <=3 (quick) / <=4 (thorough) inclusive ranges over a 7-point domain embedded order-preservingly into i64 / IPv4 (and an IPv6 analogue), written as values, a..b ranges and CIDRs, probed at every point, between points, with other-family addresses and the unset field; plus random lists of <=40 items (extremes, neighbours of earlier endpoints, /0, duplicates, mixed families, byte-string sets with shared prefixes) probed at every boundary +-1 and at values that alias a boundary in their low 16/32 bits, members stretched across 63..300 bytes, also under any(arr[*] in {...}); oracle = linear scan of the written items with own mask arithmetic.",
   "note": "Trusts the harness printer for literal forms; the exhaustive part is complete for the stated domain.",
   "ref": "DESIGN.md section 3, C09",
  },
  "C10": {
   "technique": "exhaustive (needle length x anchor) grid with constructed haystacks + property-based random cases, in two helper processes (AVX2 / scalar), naive window scan as oracle",
-  "text": "Exploration: needle lengths 0..=40 x every SIMD anchor (forced through the verif-hooks override) x needle kinds x ~1000 constructed haystacks per cell (offsets straddling every 16/32-byte block end, near-misses in first/last/anchor byte, prefixes/suffixes, decoys, small alphabets), random needles/haystacks up to 300 bytes, and the production path (random anchor) compiled 8 times; each in a process with AVX2 allowed and one with WIREFILTER_USE_AVX2=0; every execution compared with a naive scan.",
+  "text": "Exploration: needle lengths 0..=40 x every SIMD anchor (forced through the verif-hooks override) x needle kinds x ~1000 constructed haystacks per cell (offsets straddling every 16/32-byte block end, near-misses in first/last/anchor byte, prefixes/suffixes, decoys, small alphabets), random needles/haystacks up to 300 bytes, long needles and haystacks around the 16/32/64/256-byte thresholds, and the production path (random anchor) compiled 8 times; each in a process with AVX2 allowed and one with WIREFILTER_USE_AVX2=0; every execution compared with a naive scan.",
   "note": "Needs the verif-hooks feature (anchor override, SIMD-active query); evidence records whether the SIMD half was really exercised (CPU with AVX2).",
   "ref": "DESIGN.md section 3, C10",
  },
  "C14": {
   "technique": "property-based round trips through five entry points + mutated documents; libFuzzer target ctx_json in the thorough tier",
-  "text": "Exploration: generated contexts (all value types nested to depth 3, forced non-UTF-8 bytes/keys, list-matcher state) are serialised, compared with the documented JSON form, and fed back through from_str / from_slice / from_reader / serde_json::Value / the C API: equal context, byte-identical re-serialisation, generated filters agree; mutated documents (type swaps, truncation, key edits, nesting changes, out-of-range numbers, deep or unknown type descriptors and malformed list sections) must be rejected or leave only deep-well-typed values, never panic.",
+  "text": "Exploration: generated contexts (all value types nested to depth 3, forced non-UTF-8 bytes/keys, list-matcher state) are serialised, compared with the documented JSON form, and fed back through from_str / from_slice / from_reader / serde_json::Value / the C API: equal context, byte-identical re-serialisation, generated filters agree; mutated documents (type swaps, truncation, key edits, nesting changes, out-of-range numbers, deep or unknown type descriptors, malformed list sections, unknown keys up to 1 KiB with multi-byte characters at round offsets) must be rejected or leave only deep-well-typed values, never panic.",
   "note": "Open known finding value-tree-lists-key-order (value tree x scheme with lists) is excluded by construction and probed deterministically.",
   "ref": "DESIGN.md section 3, C14",
  },
@@ -102,7 +102,7 @@ CLAIMED = {
 
  "C05": {
   "technique": "fuzzing: proptest string/token/mutation generators + stress inputs in child processes + libFuzzer (thorough), oracle inside the target",
-  "text": "Exploration: random Unicode strings, token soups over the language alphabet, valid generated filters with 1-4 character/token edits, and 1e5-long chains / 1e5-deep nestings (child process, 8 MiB stack) are fed to Scheme::parse and Scheme::parse_value; every outcome must be an AST (serialisable) or an error whose line/column/caret range lie inside the input line; panics, aborts and stack overflows are violations. The thorough tier adds 8 coverage-guided libFuzzer jobs with the same oracle inside the target.",
+  "text": "Exploration: random Unicode strings, token soups over the language alphabet, string literals assembled from escapes, multi-byte characters and invalid-UTF-8 bytes in every literal slot (map key, right-hand sides, set member, regex, wildcard, function argument), valid generated filters with 1-4 character/token edits, and 1e5-long chains / 1e5-deep nestings (child process, 8 MiB stack) are fed to Scheme::parse and Scheme::parse_value; every outcome must be an AST (serialisable) or an error whose line/column/caret range lie inside the input line; panics, aborts and stack overflows are violations. The thorough tier adds 8 coverage-guided libFuzzer jobs with the same oracle inside the target.",
   "note": "Stack budget 8 MiB in the harness profile; a hang is reported as inconclusive (watchdog), not as a violation; libFuzzer needs the nightly toolchain (if its build fails the campaign is skipped and the evidence says so).",
   "ref": "DESIGN.md section 3, C05",
  },
